@@ -107,8 +107,16 @@ func enumerate(m *model, hist []sym, depth int, mask uint32, leaf func(h []sym))
 	}
 }
 
-// fullMask is the main alphabet (everything but the third transactional producer).
-const fullMask = uint32(1)<<sT3 - 1
+// baseMask: the 15 symbols common to both flavours.
+const baseMask = uint32(1)<<sT3 - 1
+
+// fullMask is the main alphabet of the classic flavour: baseMask plus N1/N2
+// (AddPartitionsToTxn without data). fullMask890 is the KIP-890 flavour's
+// (no explicit AddPartitionsToTxn there).
+const (
+	fullMask    = baseMask | 1<<sN1 | 1<<sN2
+	fullMask890 = baseMask | 1<<sS1 | 1<<sS2 // S1/S2 are never enabled unless C32_STALE is set
+)
 
 // trioMask is the alphabet of the three-producer pass: three concurrently open
 // transactions, so that ending one leaves a minimum over two others.
@@ -212,7 +220,7 @@ func allJobs() []job {
 		min  int
 	}{
 		{false, depth, fullMask, 0, 0},
-		{true, depthTV2, fullMask, txnSyms, 0}, // without a transactional produce both flavours send identical requests
+		{true, depthTV2, fullMask890, txnSyms, 0}, // without a transactional produce both flavours send identical requests
 		{false, trio, trioMask, 1 << sT3, 0},
 		{false, deep, deepMask, 0, depth},
 	} {
@@ -366,7 +374,8 @@ func TestVerifC32(t *testing.T) {
 
 	r.Rule("every history of exactly d steps (all shorter histories are its prefixes and are observed once each) over the alphabet " +
 		"{I idempotent produce p0, R retry of last idempotent batch, O idempotent produce with sequence gap, P plain produce p0, Q plain produce p1, " +
-		"T1/T2 transactional produce p0 by producer 1/2, C1/A1/C2/A2 EndTxn commit/abort, X virtual clock +6s (transaction timeouts 4s/9s), " +
+		"T1/T2 transactional produce p0 by producer 1/2, N1/N2 AddPartitionsToTxn(p0) without data (classic flavour only, enabled while that producer has no open transaction), " +
+		"C1/A1/C2/A2 EndTxn commit/abort, X virtual clock +6s (transaction timeouts 4s/9s), " +
 		"D DeleteRecords(p0, logStart+1), F/G read_uncommitted/read_committed incremental-fetch-session request}; a symbol is enabled when the reference model says so " +
 		"(R,O after an I; C/A/X with an open transaction; D while logStart<HWM); batches carry 1 or 2 records by step parity; each history runs on a fresh 1-broker kfake " +
 		"cluster (1 topic, 2 partitions) in its own synctest bubble, driven by hand-framed kmsg requests on one connection. Two protocol flavours: classic " +
@@ -491,6 +500,8 @@ func TestVerifC32(t *testing.T) {
 	r.Set("violating_histories", total.ViolHist)
 	r.Set("worker_processes", workers)
 	r.Set("alphabet", maskNames(fullMask))
+	r.Set("alphabet_kip890", maskNames(baseMask))
+	r.Set("stale_epoch_symbols_enabled", staleOn)
 	if total.TimedOut {
 		r.NotExhaustive("soft deadline reached before all histories were executed")
 	}
@@ -519,6 +530,7 @@ func TestVerifC32(t *testing.T) {
 // replay re-runs the history of a violation artefact (or a literal history
 // given as "hist:T1 P A1 G" / "hist890:...") verbosely and prints the verdict.
 func replay(t *testing.T, path string) int {
+	staleOn = true // S1/S2 are replayable without C32_STALE
 	var f found
 	if len(path) > 5 && path[:5] == "hist:" {
 		f.Hist = path[5:]
